@@ -62,7 +62,7 @@ structure Sim (I : BitsI β) (J : BitsI γ) (Rel : β → γ → Prop) : Prop wh
   runOp : ∀ z, z.WF → ∀ s t, Rel s t → normO (I.runOp z s).1 = (J.runOp z t).1 ∧ Rel (I.runOp z s).2 (J.runOp z t).2
   reset : ∀ s t, Rel s t → Rel (I.reset s) (J.reset t)
   fresh : Rel I.fresh J.fresh
-  remaining : ∀ s t, Rel s t → Rel (I.remaining s) (J.remaining t)
+  remaining : ∀ s t, Rel s t → ∃ b b', I.remaining s = .ok b ∧ J.remaining t = .ok b' ∧ Rel b b'
   len : ∀ s t, Rel s t → I.len s = J.len t
   availRead : ∀ s t, Rel s t → I.availRead s = J.availRead t
   availWrite : ∀ s t, Rel s t → I.availWrite s = J.availWrite t
@@ -169,18 +169,20 @@ theorem copyRemainingH_sim (hs : Sim I J Rel) {h : List (GCell β)} {g : List (G
     subst hrefs; subst hcur
     rw [hd]
     simp only [← hr.1]
-    have hrem := hs.remaining _ _ hb
+    obtain ⟨rb, rb', hrI, hrJ, hrem⟩ := hs.remaining _ _ hb
+    rw [hrI, hrJ]
+    simp only
     rw [← hs.len _ _ hrem]
-    by_cases h1 : I.len (I.remaining cb) > cellBits
+    by_cases h1 : I.len rb > cellBits
     · rw [if_pos h1, if_pos h1]; exact ⟨rfl, hr⟩
     · rw [if_neg h1, if_neg h1]
-      have hr0 : HeapRel Rel (h ++ [{ bits := I.remaining cb, refs := [], refCursor := 0 }])
-          (g ++ [{ bits := J.remaining db, refs := [], refCursor := 0 }]) := hr.append ⟨hrem, rfl, rfl⟩
+      have hr0 : HeapRel Rel (h ++ [{ bits := rb, refs := [], refCursor := 0 }])
+          (g ++ [{ bits := rb', refs := [], refCursor := 0 }]) := hr.append ⟨hrem, rfl, rfl⟩
       obtain ⟨e1, hr1⟩ := copyLoop_sim hs (crefs.length - ccur) hr0 t h.length
       obtain ⟨r, h1', hl⟩ : ∃ r h1', copyLoop I (crefs.length - ccur)
-        (h ++ [{ bits := I.remaining cb, refs := [], refCursor := 0 }]) t h.length = (r, h1') := ⟨_, _, rfl⟩
+        (h ++ [{ bits := rb, refs := [], refCursor := 0 }]) t h.length = (r, h1') := ⟨_, _, rfl⟩
       obtain ⟨r', g1', hl'⟩ : ∃ r' g1', copyLoop J (crefs.length - ccur)
-        (g ++ [{ bits := J.remaining db, refs := [], refCursor := 0 }]) t h.length = (r', g1') := ⟨_, _, rfl⟩
+        (g ++ [{ bits := rb', refs := [], refCursor := 0 }]) t h.length = (r', g1') := ⟨_, _, rfl⟩
       rw [hl, hl'] at e1 hr1
       simp only at e1 hr1
       simp only [hl, hl']
@@ -346,8 +348,7 @@ theorem sim_impl_spec : Sim implI specI R where
     have hrun : BitString.readRemainingBits s =
         (.ok r, { s with rCursor := s.rCursor + (s.len - s.rCursor) }) := by
       simp only [readRemainingBits, bind_run, get_run, hr]
-    simp only [implI, specI, hrun]
-    refine ⟨hir, ?_, ?_, hr0⟩
+    refine ⟨r, _, by simp only [implI, hrun], rfl, hir, ?_, ?_, hr0⟩
     · rw [ha, nextBits, hR.2.1, hR.2.2.2, List.take_of_length_le (by rw [List.length_drop, hlen, ← hR.2.2.2])]
     · rw [hcap, hlen, hR.2.2.2]
   len := fun s t hR => hR.len.symm
